@@ -329,3 +329,8 @@ pub mod encrypt_zero {
     }
 
 }
+
+// Verification hook (add-only): compiled only under `cargo kani` or `--cfg heathcliff_verif`.
+#[cfg(any(kani, heathcliff_verif))]
+#[path = "/verif/incrate/util_rlwe_v.rs"]
+pub(crate) mod verif_v;
